@@ -199,6 +199,30 @@ pub fn triggers(src: &str, root: &SyntaxNode) -> Vec<&'static str> {
             }
             flush(&mut texty, &mut other, &mut code, &mut add);
         }
+        // R64: a block comment that starts a markup line and has content after it on the same
+        // line: Typst takes the line's indentation and its markers at the first token after the
+        // comment, typstyle at the comment
+        if f.node.kind() == K::Markup {
+            let mut line_start = true;
+            for (w, c) in kids.iter().enumerate() {
+                match c.kind() {
+                    K::Parbreak => line_start = true,
+                    K::Space => {
+                        if syn::has_nl(c.text()) {
+                            line_start = true;
+                        }
+                    }
+                    K::BlockComment if line_start => {
+                        // stays "line start" for a following comment; content on the same line?
+                        let next = kids[w + 1..].iter().find(|n| !(n.kind() == K::Space && !syn::has_nl(n.text())) && n.kind() != K::BlockComment);
+                        if next.is_some_and(|n| !matches!(n.kind(), K::Parbreak | K::Space | K::LineComment)) {
+                            add("R64");
+                        }
+                    }
+                    _ => line_start = false,
+                }
+            }
+        }
         // R49: a comment inside code that sits on a markup line which also holds text (optional
         // line breaks are suppressed there): the layout with the comment differs from pass to pass
         if f.node.kind() == K::Markup {
@@ -245,9 +269,16 @@ pub fn triggers(src: &str, root: &SyntaxNode) -> Vec<&'static str> {
             if !syn::is_comment(c.kind()) {
                 continue;
             }
-            // R45: two comments glued together without a blank between them
-            if w > 0 && syn::is_comment(kids[w - 1].kind()) && kids[w - 1].kind() == K::BlockComment {
-                add("R45");
+            // R45: two comments glued together without a blank between them, or with inline blanks
+            // only (typstyle glues them in some layouts and separates them in the next pass)
+            {
+                let mut j = w;
+                while j > 0 && kids[j - 1].kind() == K::Space && !syn::has_nl(kids[j - 1].text()) {
+                    j -= 1;
+                }
+                if j > 0 && kids[j - 1].kind() == K::BlockComment {
+                    add("R45");
+                }
             }
             // R33: a multi-line block comment that starts on the line where a multi-line token or
             // node ends is re-aligned relative to a column that moves between passes
@@ -262,13 +293,11 @@ pub fn triggers(src: &str, root: &SyntaxNode) -> Vec<&'static str> {
                         }
                         continue;
                     }
-                    if p.kind() == K::Comma {
-                        continue;
-                    }
+                    // any earlier sibling on the same line that spans several lines
                     if syn::has_nl(&syn::text_of(p)) {
                         add("R33");
+                        break;
                     }
-                    break;
                 }
             }
         }
@@ -398,7 +427,12 @@ pub fn triggers(src: &str, root: &SyntaxNode) -> Vec<&'static str> {
             // parentheses are omitted the comment leaves the import statement, so the next pass sees
             // a comment-free list (it may then be reordered, and the line break after it counts as a
             // space). Also an empty parenthesised list.
-            K::ModuleImport if f.node.children().any(|c| c.kind() == K::LeftParen) => {
+            K::ModuleImport
+                if f.node.children().any(|c| c.kind() == K::LeftParen)
+                    || f.node.children().filter(|c| c.kind() == K::ImportItems).any(|it| {
+                        it.children().filter(|x| x.kind() != K::Space && x.kind() != K::Comma).last().is_some_and(|x| syn::is_comment(x.kind()))
+                    }) =>
+            {
                 let items = f.node.children().find(|c| c.kind() == K::ImportItems);
                 let n_items = items.map(|it| it.children().filter(|c| matches!(c.kind(), K::ImportItemPath | K::RenamedImportItem)).count()).unwrap_or(0);
                 // last significant thing before the closing parenthesis
@@ -422,12 +456,13 @@ pub fn triggers(src: &str, root: &SyntaxNode) -> Vec<&'static str> {
             // R60: a run of several blanks inside a heading / item body is collapsed to one; Typst
             // lexes the following text differently then (`=== ,  1...1`: `1...1` is text after two
             // blanks, `1` `...` `1` after one)
-            K::Markup if matches!(f.parent, Some(K::Heading | K::ListItem | K::EnumItem | K::TermItem)) && {
+            K::Markup if {
                 let kids: Vec<&SyntaxNode> = f.node.children().collect();
-                kids.windows(2).any(|w| {
-                    w[0].kind() == K::Space && !syn::has_nl(w[0].text()) && w[0].text().chars().count() >= 2
-                        && w[1].kind() == K::Text && w[1].text().chars().next().is_some_and(|c| c.is_ascii_digit())
-                })
+                let run = |x: &SyntaxNode| x.kind() == K::Space && !syn::has_nl(x.text()) && x.text().chars().count() >= 2;
+                let in_body = matches!(f.parent, Some(K::Heading | K::ListItem | K::EnumItem | K::TermItem));
+                (in_body && kids.windows(2).any(|w| run(w[0]) && w[1].kind() == K::Text && w[1].text().chars().next().is_some_and(|c| c.is_ascii_digit())))
+                    // ... or the text after the run carries a label, which then attaches to the merged text
+                    || kids.windows(3).any(|w| run(w[0]) && w[1].kind() == K::Text && w[2].kind() == K::Label)
             } => add("R60"),
             // R61: redundant parentheses around an array on the left of `=`: removing them turns the
             // assignment into a destructuring assignment (`(((a),)) = b` -> `((a),) = b`)
@@ -468,7 +503,15 @@ pub fn triggers(src: &str, root: &SyntaxNode) -> Vec<&'static str> {
                     .unwrap_or(0);
                 let direct_comment = f.node.children().any(|c| syn::is_comment(c.kind()))
                     || f.node.children().filter(|c| c.kind() == K::Code).any(|c| c.children().any(|x| syn::is_comment(x.kind())));
-                if direct_comment && (n_exprs == 0 || !syn::has_nl(&syn::text_of(f.node))) {
+                // ... or whose opening brace is not followed by a line break (the first pass then
+                // writes it on one line)
+                let opens_on_one_line = !f
+                    .node
+                    .children()
+                    .skip_while(|c| c.kind() != K::LeftBrace)
+                    .nth(1)
+                    .is_some_and(|c| c.kind() == K::Space && syn::has_nl(c.text()));
+                if direct_comment && (n_exprs == 0 || !syn::has_nl(&syn::text_of(f.node)) || opens_on_one_line) {
                     add("R46");
                 }
                 // R51: several statements on one source line (`{3;e}`): the block has to be broken;
@@ -605,6 +648,15 @@ pub fn triggers(src: &str, root: &SyntaxNode) -> Vec<&'static str> {
                         }
                     }
                 }
+            }
+            // R65: a line comment inside a hash-embedded field access / call chain in math
+            K::FieldAccess | K::FuncCall
+                if in_math[i]
+                    && matches!(f.parent, Some(K::Math | K::MathDelimited | K::MathAttach | K::MathFrac | K::MathRoot | K::Equation))
+                    && syn::any_node(f.node, &mut |x| x.kind() == K::LineComment)
+                    && syn::any_node(f.node, &mut |x| x.kind() == K::FieldAccess) =>
+            {
+                add("R65")
             }
             // R23: blanks around `_` in math are dropped; after embedded code the underscore then
             // becomes part of the identifier (`$#n _(x)$` -> `$#n_(x)$`, a call of `n_`).
